@@ -189,6 +189,9 @@ Qed.
 Lemma simple_fold : forall e, simple e = true -> simple (fold_neg e) = true.
 Proof. apply simple_fold_all. Qed.
 
+Lemma simple_alias_fix : forall e, simple e = true -> simple (alias_fix e) = true.
+Proof. intros e H. unfold alias_fix. destruct (is_neg_const e); auto using simple_fold. Qed.
+
 (* ------------------------------------------------------------------ the expression lemma *)
 Definition P_expr (e : expr) : Prop :=
   src_expr e = true -> EX (build_expr e) /\ BR (build_branch e).
@@ -326,7 +329,7 @@ Proof.
     destruct (IHm H) as [Em _]. destruct (IHr H0) as [Hc _]. split; auto.
     intros l' bb extra t f Hl. simpl. destruct (lift_free m) eqn:LF; [|apply pres_fail].
     eapply pres_bind with (Q := fun _ => True); [destruct extra; [apply pres_ret; exact I | apply pres_new_bb]|intros ? _].
-    pb by (apply Em). pb by (apply pres_close_branch; simpl; fin).
+    pb by (apply Em). pb by (apply pres_close_branch; simpl; rewrite simple_alias_fix by auto; fin).
     apply Hc. apply simple_fold. apply lift_free_fold_simple. auto.
   - (* GNil *) intros _ bb. simpl. apply pres_ret. auto.
   - (* GCons *) intros t IHt it IHi ifs IHc r IHr S. simpl in S. split_src.
